@@ -8,6 +8,11 @@
  *   fn 4 getenv_s       lennull which      (0 VERIF_A="valueA" 1 VERIF_EMPTY="" 2 VERIF_LONG (40 chars) 3 unset 4 null name)
  *   fn 5 gmtime_s  6 localtime_s    tnull destnull t        (dmax unused)
  *   fn 7 gets_s         nin b1..bnin       (the bytes made available on stdin of the call)
+ *   fn 8 fopen_s        spnull fnull mnull which   (0 existing file "r", 1 missing file "r", 2 new file "w", 3 existing file, mode "q")
+ *   fn 9 freopen_s      spnull fnull mnull stnull which   (stream = a stream opened on the existing file; filename null = change of mode)
+ *   fn 10 tmpfile_s     spnull
+ *        the stream pointer object is pre-set to a sentinel; "sp" reports 0 null, 1 a stream (closed again), 2 untouched.
+ *        ref = errno of the standard function called with the same arguments (0 = it succeeds)
  * dest lies flush against an inaccessible page.  Next to each call the standard function's own result is recorded
  * (ref / refn).  No expectations in here. */
 #include "hcommon.h"
@@ -21,6 +26,8 @@ static void put_bytes(const char *key, const unsigned char *p, long n) {
     printf("]");
 }
 
+static const char *h_tmpdir;
+static char fexist[256], fmissing[256], fnew[256];
 int main(void) {
     region_t D;
     long id, fn, dmax, dnull, pre;
@@ -37,6 +44,11 @@ int main(void) {
     unsetenv("VERIF_MISSING");
     saved_stdin = dup(0);
     {
+        static char dir[] = "/tmp/hos.XXXXXX";
+        if (!mkdtemp(dir)) { perror("mkdtemp"); return 2; }
+        h_tmpdir = dir;
+    }
+    {
         /* the case lines are read from a duplicate of stdin, so that gets_s can be given its own input */
         FILE *in = fdopen(saved_stdin, "r");
         char linebuf[8192];
@@ -52,6 +64,7 @@ int main(void) {
             struct tm tmv, tmres, tmref;
             time_t tv = 0;
             char *gp = 0;
+            FILE *sp_obj = (FILE *)(uintptr_t)0x5151, *stream9 = 0; long spstate = -1, referr = -1;
             if (sscanf(linebuf, "%ld %ld %ld %ld %ld%n", &id, &fn, &dmax, &dnull, &pre, &off) < 5) continue;
             while (na < 64 && sscanf(linebuf + off, "%ld%n", &a[na], &k) == 1) { off += k; na++; }
             memset(D.rw, 0x5C, D.rwlen);
@@ -84,6 +97,24 @@ int main(void) {
                 dup2(pfd[0], 0); close(pfd[0]);
                 clearerr(stdin);
             }
+            if (fn >= 8 && fn <= 10) {
+                FILE *f;
+                snprintf(fexist, sizeof fexist, "%s/exists", h_tmpdir); snprintf(fmissing, sizeof fmissing, "%s/no/such", h_tmpdir); snprintf(fnew, sizeof fnew, "%s/new", h_tmpdir);
+                f = fopen(fexist, "w"); if (f) { fputs("x\n", f); fclose(f); }
+                unlink(fnew);
+                if (fn == 8 && !a[1] && !a[2]) {
+                    const char *nm = a[3] == 1 ? fmissing : a[3] == 2 ? fnew : fexist, *md = a[3] == 2 ? "w" : a[3] == 3 ? "q" : "r";
+                    errno = 0; f = fopen(nm, md); referr = f ? 0 : (errno ? errno : -2); if (f) fclose(f); unlink(fnew);
+                }
+                if (fn == 9) {
+                    stream9 = a[3] ? 0 : fopen(fexist, "r");
+                    if (!a[2] && !a[3]) {
+                        FILE *t = fopen(fexist, "r"), *r;
+                        const char *nm = a[1] ? 0 : a[4] == 1 ? fmissing : fexist, *md = a[4] == 3 ? "q" : "r";
+                        errno = 0; r = t ? freopen(nm, md, t) : 0; referr = r ? 0 : (errno ? errno : -2); if (r) fclose(r);
+                    }
+                }
+            }
             h_n = 0; errno = H_ERRNO_PRE(id); h_fault_kind = 0;
             printf("#%ld\n", id); fflush(stdout);
             if (!sigsetjmp(h_jb, 1)) {
@@ -98,9 +129,16 @@ int main(void) {
                 case 5: gp = (char *)gmtime_s(a[0] ? 0 : &tv, a[1] ? 0 : &tmres); rc = gp ? 0 : 1; break;
                 case 6: gp = (char *)localtime_s(a[0] ? 0 : &tv, a[1] ? 0 : &tmres); rc = gp ? 0 : 1; break;
                 case 7: gp = _gets_s_chk(dest, (rsize_t)dmax, BOSU); rc = gp ? 0 : 1; break;
+                case 8: rc = fopen_s(a[0] ? 0 : &sp_obj, a[1] ? 0 : (a[3] == 1 ? fmissing : a[3] == 2 ? fnew : fexist), a[2] ? 0 : (a[3] == 2 ? "w" : a[3] == 3 ? "q" : "r")); break;
+                case 9: rc = freopen_s(a[0] ? 0 : &sp_obj, a[1] ? 0 : (a[4] == 1 ? fmissing : fexist), a[2] ? 0 : (a[4] == 3 ? "q" : "r"), stream9); break;
+                case 10: rc = tmpfile_s(a[0] ? 0 : &sp_obj); break;
                 }
                 alarm(0); h_armed = 0;
             } else { alarm(0); fk = h_fault_kind; }
+            if (fn >= 8 && fn <= 10) {
+                spstate = sp_obj == (FILE *)(uintptr_t)0x5151 ? 2 : sp_obj ? 1 : 0;
+                if (spstate == 1) fclose(sp_obj); else if (fn == 9 && stream9 && rc == 400) fclose(stream9);
+            }
             if (fn == 7) { int ch; while ((ch = getchar()) != EOF) ; clearerr(stdin); }   /* drop what the call left unread */
             if (fn == 5 || fn == 6) same = (gp == (char *)&tmres) && tmres.tm_sec == tmref.tm_sec && tmres.tm_min == tmref.tm_min && tmres.tm_hour == tmref.tm_hour &&
                                            tmres.tm_mday == tmref.tm_mday && tmres.tm_mon == tmref.tm_mon && tmres.tm_year == tmref.tm_year &&
@@ -115,11 +153,14 @@ int main(void) {
             put_bytes("post", (unsigned char *)((dest && dest != noz && fk != 2) ? dest : 0), (dest && dest != noz && fk != 2) ? (dmax < 300 ? dmax : 300) : 0);
             printf(",");
             put_bytes("ref", ref, refn > 0 ? refn : 0);
+            printf(",\"sp\":%ld,\"referr\":%ld", spstate, referr);
             printf(",\"refn\":%ld,\"rc\":%ld,\"len\":%ld,\"same\":%ld,\"tyear\":%ld,", refn, rc, lenv > 1000000000UL ? -1L : (long)lenv, same, (long)tmref.tm_year);
             h_print_handlers(stdout);
             printf(",\"frame_ok\":%s,\"fault\":\"%s\"}\n", frame_ok ? "true" : "false", h_fault_name(fk));
             fflush(stdout);
         }
     }
+    if (fexist[0]) { unlink(fexist); unlink(fnew); }
+    rmdir(h_tmpdir);
     return 0;
 }
